@@ -481,6 +481,9 @@ def reach_rejected_origin(ref_rej: int, ref_ok: int, explicit_rej: bool, explici
 from dliswriter.configuration import global_config  # noqa: E402
 
 
+_SEH_COUNTER = [0]
+
+
 def soft_enum_history_check(ei, mode1, mode2, same_conv):
     """A non-member value goes through a soft converter twice (same converter object or a second one of the same
     enumeration), in modes mode1 then mode2: each call is judged by the mode in force at that call - a value accepted
@@ -489,7 +492,8 @@ def soft_enum_history_check(ei, mode1, mode2, same_conv):
     E = h.ENUMS[ei]
     c1 = E.make_converter('x', soft=True)
     c2 = c1 if same_conv else E.make_converter('y', soft=True)
-    v = 'NOT-A-MEMBER-ZZ'
+    _SEH_COUNTER[0] = _SEH_COUNTER[0] + 1
+    v = 'NOT-A-MEMBER-' + str(_SEH_COUNTER[0])     # a value no earlier path of this process has used (process-level state)
     outcomes = []
     for (c, mode) in ((c1, mode1), (c2, mode2)):
         global_config.high_compat_mode = mode
@@ -668,3 +672,25 @@ def reach_setup_taint(kind: int, n: int, cast: int, has_type: bool, anymask: boo
     post: _ != 0
     """
     return setup_taint_check(kind, n, cast, has_type, anymask)
+
+
+LL_EDGES = [-2147483648, 2147483647, 4294967296, -4294967296, 1099511627776, 9223372036854775807, -9223372036854775808, 0]
+
+
+def ob_long_list_edges(n: int, pos: int, k: int, d: int) -> int:
+    """
+    Boundary windows with concrete values (an encoder that hands the list to a C-level routine makes the symbolic
+    obligation inconclusive): list lengths 9 and 12, first or last element = edge + d.
+    pre: (n == 9 or n == 12) and (pos == 0 or pos == n - 1) and 0 <= k < 8 and -2 <= d <= 2
+    pre: SHARD_N == 1 or k == SHARD_I % 8
+    post: _ == 0
+    """
+    return long_list_check(_realize(n), _realize(pos), _realize(LL_EDGES[_realize(k)] + _realize(d)), 0)
+
+
+def reach_long_list_edges(n: int, pos: int, k: int, d: int) -> int:
+    """
+    pre: (n == 9 or n == 12) and (pos == 0 or pos == n - 1) and 0 <= k < 8 and -2 <= d <= 2
+    post: _ != 0
+    """
+    return long_list_check(_realize(n), _realize(pos), _realize(LL_EDGES[_realize(k)] + _realize(d)), 0)
